@@ -180,13 +180,15 @@ class TextGen:
     # ---- C15: doc groups ---------------------------------------------------------------------
     def doc_groups(self, n_groups):
         r = self.r
-        shapes = ["named", "enum-struct-variant", "tuple", "enum-unit", "flatten", "only-flattened-enum", "internal-newtype-inlined-enum"]
+        shapes = ["named", "enum-struct-variant", "tuple", "enum-unit", "flatten", "only-flattened-enum", "internal-newtype-inlined-enum",
+                  "untagged-twin-variants"]
         for gi in range(n_groups):
             shape = shapes[gi % len(shapes)]
             position = r.choice({"named": ["container", "field"], "enum-struct-variant": ["container", "variant", "variant-field"],
                                  "tuple": ["container"], "enum-unit": ["container", "variant"], "flatten": ["flattened-field", "field"],
                                  "only-flattened-enum": ["flattened-enum-variant-field", "flattened-enum-variant"],
-                                 "internal-newtype-inlined-enum": ["inlined-enum-variant-field", "inlined-enum-variant-field", "inlined-enum-variant"]}[shape])
+                                 "internal-newtype-inlined-enum": ["inlined-enum-variant-field", "inlined-enum-variant-field", "inlined-enum-variant"],
+                                 "untagged-twin-variants": ["variant-field", "variant-field", "variant"]}[shape])
             texts = [None, r.choice(DOC_TEXTS), r.choice(DOC_TEXTS)]
             if shape == "only-flattened-enum" and r.random() < 0.5:
                 # the embedded comment must not disturb what is done to the surrounding type text
@@ -197,7 +199,7 @@ class TextGen:
             # other attributes on the documented node (the same for every member of the group)
             fctx = r.choice([None, None, None, '#[ts(type = "string")]', '#[ts(as = "String")]', "#[ts(inline)]", "#[ts(optional)]",
                              '#[ts(rename = "alpha")]', "#[serde(default)]"])
-            if shape in ("tuple", "enum-unit", "only-flattened-enum", "internal-newtype-inlined-enum"):
+            if shape in ("tuple", "enum-unit", "only-flattened-enum", "internal-newtype-inlined-enum", "untagged-twin-variants"):
                 fctx = None
             cctx = r.choice([None, None, None, '#[ts(rename_all = "lowercase")]', "#[ts(optional_fields)]", '#[ts(tag = "t")]',
                              # the same kind of attribute in its serde spelling (one or two lists), and one ts-rs does not know
@@ -223,6 +225,12 @@ class TextGen:
                     it = self.mk("tuple", docs=cdocs, fields=[Field(None, prim("i32")), Field(None, prim("bool"))])
                 elif shape == "enum-unit":
                     it = self.mk("enum", docs=cdocs, extra_attrs=list(cextra), variants=[Variant("First", "unit", docs=vdocs), Variant("Second", "unit")])
+                elif shape == "untagged-twin-variants":
+                    # two neighbouring variants that are spelled alike once the comments are taken away: still two members
+                    it = self.mk("enum", docs=cdocs, untagged=True, variants=[
+                        Variant("First", "struct", [Field("alpha", prim("f64"), docs=fdocs)], docs=vdocs),
+                        Variant("Second", "struct", [Field("alpha", prim("f64"))]),
+                        Variant("Third", "newtype", [Field(None, prim("String"))])])
                 elif shape == "internal-newtype-inlined-enum":
                     # the documented enum is inlined as the payload of a newtype variant of an internally tagged enum: a union,
                     # which the tag object is intersected with; the comments inside are no part of that decision
